@@ -42,6 +42,7 @@ class Check(HCheck):
             al.rule(A, "path1"),
             al.as_str(al.LB_SRC_AND_TGT),
             al.as_iter(al.LB_BOTHDIR),  # add_links given a one-shot iterator
+            al.as_iter(al.CB_CROSS),  # crawl targets given as one-shot iterators
             al.crawl_alias(Ax, (Ab, Axy), (Az,)),  # same source as bytes and as str in one mapping
             al.as_str(al.CB_KNOWN),
         ]
@@ -50,8 +51,8 @@ class Check(HCheck):
             Space(Cfg("never"), ops, d + 1 if thorough else d, roots=[al.R0], name="links/never"),
             Space(Cfg("domain"), ops, d, roots=[al.R0, al.R1, al.R2], name="links/domain"),
         ]
-        ll = al.long_lrus((75, 149, 74))
-        lops = [al.links((ll[0], ll[1])), al.links((ll[1], ll[0]), (ll[1], ll[1])), al.crawl((ll[2], (ll[0], ll[2]))), al.links((A, ll[1]), (ll[0], A)), al.page(ll[1], True)]
+        ll = al.long_lrus((75, 149, 74, 222))
+        lops = [al.links((ll[0], ll[1])), al.links((ll[1], ll[0]), (ll[1], ll[1])), al.crawl((ll[2], (ll[0], ll[2]))), al.links((A, ll[1]), (ll[0], A)), al.page(ll[1], True), al.links((ll[3], ll[0]), (Ax, ll[3])), al.page(ll[3] + b"p:k|")]
         sp.append(Space(Cfg("never"), lops, 5 if thorough else 4, name="links/long"))
         # exhaustive small batch shapes, depth 1 (thorough 2 for link batches) from prepared states
         P3 = [Ax, Axy, Ab]
@@ -142,6 +143,30 @@ class Check(HCheck):
         ctx.obs(obs)
         lo = sorted(t.links_iter(out=True))
         li = sorted((b, a) for a, b in t.links_iter(out=False))
+        # the two enumerations alive at the same time, advanced in turns, with a page-link query
+        # issued in between (two link-list walks suspended at once)
+        g1, g2 = t.links_iter(out=True), t.links_iter(out=False)
+        a1, a2 = [], []
+        live = [not big, not big]  # size letters: skipped (hundreds of steps)
+        if big:
+            a1, a2 = list(lo), [(b, a) for a, b in li]
+        some_page = next(iter(sorted(m.pages)), None)
+        budget = 20 * (len(m.pages) + len(m.links) + len(m.named) + 10)
+        while any(live):
+            budget -= 1
+            if budget < 0:
+                ctx.fail("enumeration-does-not-end", "two enumerations advanced in turns do not terminate")
+                return
+            for gi, (gen, acc) in enumerate(((g1, a1), (g2, a2))):
+                if live[gi]:
+                    try:
+                        acc.append(next(gen))
+                    except StopIteration:
+                        live[gi] = False
+            if some_page is not None:
+                t.get_page_links(some_page)
+        if sorted(a1) != lo or sorted((b, a) for a, b in a2) != li:
+            ctx.fail("links-enum-interleaved", "the two link enumerations advanced in turns give %s / %s, one after the other %s / %s" % (_sh(sorted(a1)), _sh(sorted((b, a) for a, b in a2)), _sh(lo), _sh(li)))
         support = sorted(m.links)
         if lo != support:
             ctx.fail("links-enum-out", "outbound link enumeration %s differs from the submitted links %s" % (_sh(lo), _sh(support)))
